@@ -60,8 +60,24 @@ pub mod openssl {
         pub struct SslMethod { pub x: u8 }
         impl SslMethod { #[verifier::external_body] pub fn tls() -> SslMethod { unimplemented!() } }
         pub struct SslRef { pub x: u8 }
-        #[derive(Debug)]
-        pub struct HandshakeError { pub x: u8 }
+        // openssl::ssl::HandshakeError and what it carries: every detail of a failed handshake is the peer's (or the network's) choice
+        pub struct SslErrorCode { pub x: u8 }
+        pub struct SslError { pub x: u8 }
+        impl SslError {
+            // Some for a TLS protocol error, None when the transport failed (EOF, reset)
+            #[verifier::external_body] pub fn ssl_error(&self) -> Option<&ErrorStack> { unimplemented!() }
+            #[verifier::external_body] pub fn io_error(&self) -> Option<&crate::vnet::IoError> { unimplemented!() }
+            #[verifier::external_body] pub fn code(&self) -> SslErrorCode { unimplemented!() }
+        }
+        pub struct MidHandshakeSslStream { pub x: u8 }
+        impl MidHandshakeSslStream {
+            #[verifier::external_body] pub fn error(&self) -> &SslError { unimplemented!() }
+            #[verifier::external_body] pub fn into_error(self) -> SslError { unimplemented!() }
+            #[verifier::external_body] pub fn get_ref(&self) -> &crate::vnet::Stream { unimplemented!() }
+        }
+        pub enum HandshakeError { SetupFailure(ErrorStack), Failure(MidHandshakeSslStream), WouldBlock(MidHandshakeSslStream) }
+        #[verifier::external]
+        impl std::fmt::Debug for HandshakeError { fn fmt(&self, f: &mut std::fmt::Formatter) -> std::fmt::Result { Ok(()) } }
         pub struct SslStream { pub x: u8 }
         // what a connection thread may ask about a finished handshake: every answer is the peer's choice
         impl SslStream {
